@@ -96,14 +96,14 @@ type Job struct {
 
 // Plan describes how a property is checked.
 type Plan struct {
-	Jobs       []Job
-	Level      string
-	Rule       string
-	Real       []string
-	Stub       []string
-	Assume     []string
-	QuickS     int // seconds of simulation in the quick tier
-	ThoroughS  int
+	Jobs      []Job
+	Level     string
+	Rule      string
+	Real      []string
+	Stub      []string
+	Assume    []string
+	QuickS    int // seconds of simulation in the quick tier
+	ThoroughS int
 }
 
 type Finding struct {
@@ -215,10 +215,10 @@ func prepare() string {
 }
 
 type workerOut struct {
-	results []RunResult
-	crash   string // non-empty: worker died; text
+	results   []RunResult
+	crash     string // non-empty: worker died; text
 	crashSeed uint64
-	log     string
+	log       string
 }
 
 func runWorker(scratch string, env []string, outFile string, timeout time.Duration) (string, error) {
@@ -293,21 +293,21 @@ func readResults(path string) (results []RunResult, lastBegin uint64, pending bo
 }
 
 type agg struct {
-	evals      int
-	distinct   map[string]bool
-	faults     map[string]int
-	probes     map[string]int
-	simMS      int64
-	steps      int64
-	switches   int64
-	samples    []json.RawMessage
-	states     map[string]bool
-	viol       map[string][]RunResult // key prop|class|signature
-	perWorld   map[string]int
+	evals       int
+	distinct    map[string]bool
+	faults      map[string]int
+	probes      map[string]int
+	simMS       int64
+	steps       int64
+	switches    int64
+	samples     []json.RawMessage
+	states      map[string]bool
+	viol        map[string][]RunResult // key prop|class|signature
+	perWorld    map[string]int
 	sweepPoints int
-	slowUS     int64
-	slowSeed   uint64
-	slowSteps  int
+	slowUS      int64
+	slowSeed    uint64
+	slowSteps   int
 }
 
 func newAgg() *agg {
